@@ -15,7 +15,10 @@
 (*            with another capitalisation convention is still matched),    *)
 (*            EXCEPT when the same map of the document holds another name  *)
 (*            with the same lower-cased form (podIP / podIp, NodeSpec /    *)
-(*            Nodespec, foo / Foo): then the title-cased identifier.       *)
+(*            Nodespec, foo / Foo): then the title-cased identifier.  (For *)
+(*            a property "the same map" is the properties of all objects   *)
+(*            that share the object's key, so that the structs generated   *)
+(*            for foo and Foo are read under one rule.)                    *)
 (* Distinct identifiers are distinct names of the premise whatever their   *)
 (* capitalisation, so keys need not be distinct: foo and Foo both have the *)
 (* key "Foo" and the contract asks for two structs with that key (a        *)
@@ -244,9 +247,10 @@ ObsAccepts(seen, inp, obs) == Observed(seen, inp) => seen[inp] = obs
 ObsRecord(seen, inp, obs) == IF Observed(seen, inp) THEN seen ELSE (inp :> obs) @@ seen
 
 \* what differs between two observations of one input (detail field of the signature); structs
-\* are told apart by name and field tags, fields by their tag (names may coincide: foo / Foo)
+\* are told apart by name and (tag, type) of their fields, fields by their tag (names may
+\* coincide: foo / Foo)
 FieldTags(s) == [m \in DOMAIN s.fields |-> s.fields[m].tag]
-StructIds(out) == [j \in DOMAIN out |-> <<out[j].name, Range(FieldTags(out[j]))>>]
+StructIds(out) == [j \in DOMAIN out |-> <<out[j].name, {<<f.tag, f.type>> : f \in Range(out[j].fields)}>>]
 StructOrderDiffers(a, b) == StructIds(a) # StructIds(b) /\ Range(StructIds(a)) = Range(StructIds(b))
 FieldOrderDiffers(a, b) ==
     \E i \in DOMAIN a : \E j \in DOMAIN b :
